@@ -84,6 +84,9 @@ def generate(batch: str, r: Rng, idx: int, tier: str) -> Dict[str, Any]:
     # part of "memory": read through the bus at every boundary
     scn["watch"] = scn["watch"] + [[0xFFFFA, 6], [0xC1000, 5], [0x01000, 4]]
     scn["pce500_map"] = bool(r.child("map").chance(1, 2))    # Rust: documented read-only windows configured
+    # keyboard interrupts switched off in a quarter of the machines: a configuration flag that must survive too
+    scn["kb"] = dict(scn.get("kb") or {})
+    scn["kb"]["kb_irq"] = bool(r.child("kbirq").chance(3, 4))
     scn["crashes"] = None
     scn["crash_seed"] = r.child("crash").u64()
     scn["n_crashes"] = 2 if executor == "py-machine" else 3
